@@ -432,7 +432,8 @@ def one_twin(run, sc, mk, call, edit, kw, payload, mir_all):
         oa, ob = outcome(a_idnt), outcome(b_idnt)
         # ... and the same as for a curve that only ever saw the edited value
         d3 = []
-        if sc.startswith("fit_model(params_initial)"):
+        if sc.startswith(("fit_model(params_initial)",
+                          "fit_model(method_kws)", "fit_model(range_x)")):
             # (the model is named first: naming it later would discard the
             # initial parameters given with the same call)
             c_idnt = curve()
